@@ -45,7 +45,8 @@ ASSUMPTIONS = [
     "documented loaded-table-dependent recalculation (hhea/maxp/head recalc only when glyf/CFF is loaded) and counted, not failed",
     "an operation that raises on A and raises the same exception type on a never-saved twin is outside the property (counted)",
     "object-model comparison masks what compile() documents it recalculates: head.checkSumAdjustment/modified/indexToLocFormat, bounding boxes and extents of head/hhea/vhea/maxp/glyf/CFF, "
-    "maxp statistics, numberOfHMetrics/numberOfVMetrics, OS/2 usFirstCharIndex/usLastCharIndex, post extraNames; name.compile sorts the name records in place, so the twin's records are sorted before dumping",
+    "maxp statistics, numberOfHMetrics/numberOfVMetrics, OS/2 usFirstCharIndex/usLastCharIndex, post extraNames, and the computed fields (counts, struct lengths) that TTX prints as '<!-- XCount=n -->' comment lines "
+    "(COLR.preWrite resets LayerRecordCount on the object by design); name.compile sorts the name records in place, so the twin's records are sorted before dumping",
     "exception identity across children is (type, innermost fontTools frame); messages may contain paths",
     "a pipeline that creates a new font (merge) may set head.created as well as head.modified from the clock, provided both equal SOURCE_DATE_EPOCH + 2082844800",
     "TTX-imported CFF2 fonts are exercised by part (a) only (second save of the import); part (b) opens CFF2 fonts from bytes",
